@@ -60,3 +60,51 @@ func (w *WaitGroup) Wait() {
 	}
 	vsched.WaitUntil("wg.Wait", func() bool { return w.n == 0 })
 }
+
+// Pool mirrors sync.Pool as one shared LIFO free list (no per-P caches, no
+// GC): every Put is visible to the next Get of any thread, which is the
+// behaviour most likely to expose aliasing of pooled objects. Get and Put are
+// scheduling points.
+type Pool struct {
+	New   func() any
+	items []any
+	mu    sync.Mutex // free-running mode only
+}
+
+func (p *Pool) Get() any {
+	if vsched.Free {
+		p.mu.Lock()
+		defer p.mu.Unlock()
+	} else {
+		vsched.Touch("sync.Pool.Get")
+	}
+	if n := len(p.items); n > 0 {
+		x := p.items[n-1]
+		p.items = p.items[:n-1]
+		return x
+	}
+	if p.New != nil {
+		return p.New()
+	}
+	return nil
+}
+
+func (p *Pool) Put(x any) {
+	if vsched.Free {
+		p.mu.Lock()
+		defer p.mu.Unlock()
+	} else {
+		vsched.Touch("sync.Pool.Put")
+	}
+	if x == nil {
+		return
+	}
+	p.items = append(p.items, x)
+}
+
+// RWMutex mirrors sync.RWMutex (readers are serialised too: a coarser but
+// sound model for exclusion properties).
+type RWMutex struct{ Mutex }
+
+func (m *RWMutex) RLock()   { m.Lock() }
+func (m *RWMutex) RUnlock() { m.Unlock() }
